@@ -7,7 +7,7 @@ CLAIMED = {
     # id: (level, design_ref, technique, level text, level note)
     "C20": ("exploration", "DESIGN.md §4 C20",
             "bounded-exhaustive enumeration of conversion inputs against an independent calendar / big-integer model",
-            "Every Date and every Date32 day of the documented range in 29 fixed zones at 4 times of day, DateTime seconds (all 2^32 in the thorough tier), a DateTime64 lattice at every precision, wide-integer, IP and interval helpers are each evaluated on the real functions and compared with an independent model, and every one of those instants also enters the matching column through each of its ingestion paths (Append, AppendArr, Array, Nullable) with the scalar conversion as oracle; the finite spaces named in the evidence are enumerated completely, nothing is sampled.",
+            "Every Date and every Date32 day of the documented range in 29 fixed zones at 4 times of day, DateTime seconds (all 2^32 in the thorough tier), a DateTime64 lattice at every precision, wide-integer, IP and interval helpers (intervals also over spans longer than 292 years and across the daylight-saving changes of a real zone) are each evaluated on the real functions and compared with an independent model, and every one of those instants also enters the matching column through each of its ingestion paths (Append, AppendArr, Array, Nullable) with the scalar conversion as oracle; the finite spaces named in the evidence are enumerated completely, nothing is sampled.",
             "Trusted: Go runtime, math/big; the civil-calendar model (cross-checked against package time for every day enumerated)."),
     "C04": ("model_checking", "DESIGN.md §4 C04, §2 E1/E2",
             "stateless model checking of the real client: preemption-bounded DFS over all schedules of the sender / receiver / cancel-watch / peer goroutines and clock steps, crossed with an exhaustive fault enumeration",
@@ -15,23 +15,23 @@ CLAIMED = {
             "Trusted: Go runtime + testing/synctest, the instrumentation pass (cmd/vinstr) placing scheduling points at every sync / channel / context / connection operation, x/sync errgroup (instrumented, not assumed). Nothing is claimed beyond the completed bound or for faults outside the enumeration; weak-memory effects are not modelled."),
     "C10": ("model_checking", "DESIGN.md §4 C10, §2 E1/E2",
             "stateless model checking of the real client: a canceller thread (or a context deadline fired by the clock pseudo-thread) is placed by the preemption-bounded DFS at every scheduling point of every other thread",
-            "Query scenarios (select, insert, streamed insert, LZ4, telemetry, stalled writes, a server that falls silent in mid-query, and the same queries on a client with a history: a previous query on the same client that ended with a server exception or ended well) and the handshake run on the real instrumented client inside a synctest bubble; explicit cancel() (also of a context that carries a far deadline) and context deadlines (1 s / 5 s fake) with read timeouts 3 s / 100 ms; every schedule up to the bound (quick 1, thorough 2; handshake one more in thorough) is executed and checked for: error matches the context, return within read timeout + 1 s of fake time after the context ended (clock deviations discounted), exactly one well-formed Cancel byte or none, connection and client closed (or, when the cancellation followed EndOfStream, a fully usable client), no library goroutine alive at return.",
+            "Query scenarios (select, insert, streamed insert, LZ4, telemetry, stalled writes, a server that falls silent in mid-query or inside a packet or a nested exception, a server that never stops sending progress, a connection whose Close reports an error, and the same queries on a client with a history: a previous query on the same client that ended with a server exception or ended well) and the handshake run on the real instrumented client inside a synctest bubble; explicit cancel() (also of a context that carries a far deadline) and context deadlines (1 s / 5 s fake) with read timeouts 3 s / 100 ms; every schedule up to the bound (quick 1, thorough 2; handshake one more in thorough) is executed and checked for: error matches the context, return within read timeout + 1 s of fake time after the context ended (clock deviations discounted), exactly one well-formed Cancel byte or none, connection and client closed (or, when the cancellation followed EndOfStream, a fully usable client), no library goroutine alive at return.",
             "Trusted: as C04. A cancellation that lands after the server's EndOfStream was consumed is treated as landing after the query (client may stay open if the C04 probe passes). Failures with a cause of their own that precede the context's end (read time-out of the hello, handshake time-out) are C13's business and are not judged here."),
     "C12": ("model_checking", "DESIGN.md §4 C12, §2 E1",
             "schedule enumeration (preemption-bounded DFS under the controlled scheduler) with the Go race detector as the per-execution oracle; the scheduler's quiescence barrier and its baton hand-off (run under runtime.RaceDisable) add no happens-before edges, so -race sees only the library's own synchronisation; every run starts with a detector self-test (a deliberate race between two scheduled goroutines must be reported)",
-            "The query scenarios of C04 plus an insert during which the server reports progress while the client still streams, each with OpenTelemetry instrumentation on and off, fault-free and with a server exception, plus Close / IsClosed / ServerInfo / cancel from a foreign goroutine, plus two independent clients running the same query side by side under each compression method (quick: default schedule), are explored up to the bound (quick 1, thorough 2) in a -race build of the instrumented client; any report whose two accesses both lie in ch-go packages or in third-party code called by them (attributed to the nearest ch-go caller) is a violation, attributed to the schedule that produced it.",
+            "The query scenarios of C04 plus an insert during which the server reports progress while the client still streams, each with OpenTelemetry instrumentation on and off, fault-free and with a server exception, plus Close / IsClosed / ServerInfo / cancel from a foreign goroutine, plus a query with external data, plus two clients made from one Options value (settings slice with spare capacity, per-query settings) running the same query side by side under each compression method (quick: default schedule), are explored up to the bound (quick 1, thorough 2) in a -race build of the instrumented client; any report whose two accesses both lie in ch-go packages or in third-party code called by them (attributed to the nearest ch-go caller) is a violation, attributed to the schedule that produced it.",
             "Trusted: the Go race detector (happens-before based: it reports races that the executed schedule exposes, schedules beyond the bound and code the scenarios never run are not covered); simnet's real mutex stands for the kernel's socket synchronisation; no-op OTel providers. Pool scenarios are covered with C11's harness."),
     "C02": ("exploration", "DESIGN.md §4 C02",
             "bounded-exhaustive enumeration of query shapes x compression x revision; each case executes the real Connect + Do under the controlled scheduler (default schedule) and the recorded client bytes are compared with the independent reference encoding",
-            "All queries with at most 2 (thorough 4) fields deviating from a base query over per-field alphabets (input columns of 32 types, sent at once or streamed in two rounds, and two pseudo-random blocks of 190-320 KB) x 5 compression settings at the newest revision, and all queries with at most 1 deviation x every revision of the threshold-neighbour set from 54420 x {Disabled, LZ4}: the Query packet must equal the reference encoding byte for byte, every block must be exactly one Data packet (one checksummed frame iff compression is on) that the reference decoder reads back to the column contents, and nothing else may be written.",
+            "All queries with at most 2 (thorough 4) fields deviating from a base query over per-field alphabets (input columns of 32 types, sent at once, streamed in two rounds or empty, strings of 127 / 128 bytes, and two pseudo-random blocks of 190-320 KB; a client history before the query: a Ping or a Do refused for its cancelled context, or an answered Ping) x 5 compression settings at the newest revision, and all queries with at most 1 deviation x every revision of the threshold-neighbour set from 54420 x {Disabled, LZ4}: the Query packet must equal the reference encoding byte for byte, every block must be exactly one Data packet (one checksummed frame iff compression is on) that the reference decoder reads back to the column contents, and nothing else may be written.",
             "Trusted: refwire/refcol (written from the protocol description, independent of proto/compress), city/lz4/zstd libraries for frames. Client-info fields the caller does not control (client name, version) are taken from the hello the same client sent; the patch number is not compared."),
     "C03": ("exploration", "DESIGN.md §4 C03",
             "bounded-exhaustive enumeration of server packet scripts; each case executes the real client against the scripted reference peer and is compared with a reference interpreter of the specified receive loop",
-            "All scripts of length <= 3 (thorough 4) over a 15-symbol server-packet alphabet x {plain, LZ4} x {typed, Auto, no binding}; all scripts of length <= 2 (3) x 16 revisions around every packet-affecting threshold x 9 callback sets; all scripts of length <= 2 x each callback failing. Callback trace (kind, payload, bound column values at callback time), return value and exception chain (errors.As / errors.Is / IsErr for every nested code) must equal the interpreter's.",
+            "All scripts of length <= 3 (thorough 4) over a 19-symbol server-packet alphabet (incl. zero-valued Progress / Profile packets and a zero-row data block) x {plain, LZ4} x {typed, Auto, no binding}; all scripts of length <= 2 (3) x 16 revisions around every packet-affecting threshold x 9 callback sets; all scripts of length <= 2 x each callback failing. Callback trace (kind, payload, bound column values at callback time), return value and exception chain (errors.As / errors.Is / IsErr for every nested code) must equal the interpreter's.",
             "Trusted: refwire/refcol as generators of well-formed server streams. The behaviour without OnResult (fails when a block follows one with rows) is taken from the documentation of Query.OnResult."),
     "C08": ("exploration", "DESIGN.md §4 C08",
             "bounded-exhaustive enumeration of transport segmentations of enumerated server streams on the simulated connection (reads stop at chosen cut offsets; idle gaps drive the fake clock past the read deadline)",
-            "Every stream of the C03 alphabet up to length 2 (thorough 3) at two revisions, plain and LZ4, is delivered one byte per read, split in two at every offset, with a gap longer than the read timeout before every packet, in all 2^(n-1) ways when it is at most 16 bytes long, and (thorough) in three pieces at every pair of offsets when at most 96 bytes long; outcome must equal the reference interpreter's (= unsegmented) outcome.",
+            "Every stream of the C03 alphabet up to length 2 (thorough 3) at two revisions, plain and LZ4, is delivered one byte per read, split in two at every offset, with a gap longer than the read timeout before every packet, in all 2^(n-1) ways when it is at most 16 bytes long, and (thorough) in three pieces at every pair of offsets when at most 96 bytes long; also with the last bytes delivered together with EOF, with idle time inside a packet, and with the gaps repeated under a far context deadline; outcome must equal the reference interpreter's (= unsegmented) outcome.",
             "Trusted: as C03. Bytes consumed from the transport are not compared (the client's buffered reader legitimately reads ahead). proto.Reader-level segmentation of whole blocks is part of C07's corpus run."),
     "C09": ("model_checking", "DESIGN.md §4 C09",
             "explicit enumeration of all OnInput callback histories up to a depth against a list-of-values reference model; every history is executed on the real client and the blocks on the wire are decoded by the reference model",
@@ -39,11 +39,11 @@ CLAIMED = {
             "Trusted: refcol decoding of the client's blocks. States = histories (each history is a distinct model state sequence)."),
     "C13": ("fault_enumeration", "DESIGN.md §4 C13",
             "exhaustive enumeration of (client revision, server revision) pairs over the threshold-neighbour set and of handshake fault responses (every truncation point of the hello, exception, wrong packet, garbage, cut, silence, late hello), each executed on the real Connect / Dial over the simulated connection with the fake clock",
-            "~2.6k revision pairs with a well-formed hello written by the reference peer with the fields of min(client, server): ServerInfo, addendum presence, and a follow-up query parsed / answered at min(client, server); fault responses on a diagonal of pairs through Connect and Dial: error (carrying the exception), no client, dialled connection closed; hello delayed beyond the read timeout but within the handshake timeout must be accepted.",
+            "~2.6k revision pairs with a well-formed hello written by the reference peer with the fields of min(client, server): ServerInfo, addendum presence, and a follow-up query parsed / answered at min(client, server); fault responses on a diagonal of pairs through Connect and Dial: error (carrying the exception), no client, dialled connection closed; hello delayed beyond the read timeout but within the handshake timeout (also arriving in the last window and at the last moment of it) must be accepted.",
             "Trusted: refwire hello model (fields gated on min of both revisions, as real servers do)."),
     "C01": ("exploration", "DESIGN.md §4 C01, §2 E3/E4/E5",
             "bounded-exhaustive enumeration of (column composition, value sequence, revision, buffer state) with three independent decoders (typed, inferred, reference model) as oracle, executed in the default and the purego build with transcript comparison",
-            "Every composition of the generated registry (45 base columns under Array / Nullable / LowCardinality / Map / Tuple to depth 2: ~1000 typed constructors) x all value sequences of length <= 2 (thorough 4; 5 for the base columns) over per-type boundary alphabets x 3 revisions x 3 buffer states, plus dictionary sizes around 255 / 65535, strings around the varint boundaries and around the 1 MiB allocation step (four carriers, fresh and reused targets), the same contents as a reference server writes them (wider LowCardinality keys) and under the server's spellings of the type (Decimal(P, S), explicit time zones). Each case must decode to the appended values through a fresh typed column, through Results.Auto where the type is inferable and through the reference codec (exact consumption), must not depend on the buffer's prior contents, must re-encode identically and must equal the WriteBlock path; both builds must agree.",
+            "Every composition of the generated registry (45 base columns under Array / Nullable / LowCardinality / Map / Tuple to depth 2: ~1000 typed constructors) x all value sequences of length <= 2 (thorough 4; 5 for the base columns) over per-type boundary alphabets x 3 revisions x 3 buffer states, plus dictionary sizes around 255 / 65535, strings around the varint boundaries and around the 1 MiB allocation step (four carriers, fresh and reused targets), the same contents as a reference server writes them (wider LowCardinality keys) and under the server's spellings of the type (Decimal(P, S), explicit time zones). Each case must decode to the appended values through a fresh typed column, through Results.Auto where the type is inferable and through the reference codec (exact consumption), must not depend on the buffer's prior contents, must decode twice into an explicit inferring target (proto.AutoResult) whose ColAuto re-encodes to the same bytes, must re-encode identically and must equal the WriteBlock path; both builds must agree.",
             "Trusted: refcol (reference codec written from the format description) and the reflection glue mapping Go values to canonical wire values (its date arithmetic is independent of the library's). LowCardinality(Nullable(T)) is compared only against the library's own decoders (its library representation is not the server's). Depth-3 compositions are not generated."),
     "C05": ("fault_enumeration", "DESIGN.md §4 C05",
             "exhaustive enumeration of payload lengths x kinds x methods, frame sequences x read sizes, every single-byte alteration of representative frames, out-of-range size fields, and an explicit-state search over append-frame / corrupt-frame / read histories on one reader",
@@ -51,27 +51,27 @@ CLAIMED = {
             "Trusted: go-faster/city, pierrec/lz4, klauspost/zstd (shared by library and reference frame codec)."),
     "C06": ("fault_enumeration", "DESIGN.md §4 C06",
             "exhaustive single-point mutation of valid encodings (every byte x 10 values, every offset x 25 boundary / huge values incl. the neighbourhoods of the signed limits, as 8-byte field and as varint, every splice offset) decoded in memory-limited subprocesses with crash attribution and a non-termination watchdog",
-            "Corpus: one block per registry composition (LowCardinality compositions also as a server may write them, with 16- and 64-bit keys) and the protocol messages. Each mutant is decoded through the typed target and through Auto; the worker runs with a 3 GiB address-space limit and the block row cap lowered to 65536 by an overlay (so that by-design allocations stay small and only length-field-driven ones can exhaust memory). Oracle: returns within 30 s, no panic, process alive, and on success Rows() equals the block's row count and Row(i) works for every i. A dying worker is attributed to the input it was decoding, provided a fresh process given that input alone dies as well, and restarted after it.",
+            "Corpus: one block per registry composition (LowCardinality compositions also as a server may write them, with 16- and 64-bit keys; further block shapes: several columns, zero rows, header type strings as a server spells them) and the protocol messages. Each mutant is decoded through the typed target and through Auto; the worker runs with a 3 GiB address-space limit and the block row cap lowered to 65536 by an overlay (so that by-design allocations stay small and only length-field-driven ones can exhaust memory). Oracle: returns within 30 s, no panic, process alive, and on success Rows() equals the block's row count and Row(i) works for every i. A dying worker is attributed to the input it was decoding, provided a fresh process given that input alone dies as well, and restarted after it.",
             "Trusted: the overlay that rewrites only the constant maxRowsInBLock. Quick covers every composition of depth <= 1 and every 11th of depth 2; thorough all."),
     "C07": ("fault_enumeration", "DESIGN.md §4 C07",
             "exhaustive enumeration of every proper prefix of every corpus encoding (plain, and inside None / LZ4 / ZSTD frames as one and two frames), decoded through typed and inferred targets",
-            "Corpus = C01 blocks (all compositions) and C17 messages at three revisions; ~2.2 million (encoding, cut, decoder) cases in the quick tier; a prefix the reference model parses as a complete message is excluded by construction. Values longer than the 1 MiB allocation step (seven block positions, three messages) are cut at a stated subset of positions (both ends, around every 64 KiB step, a 4099-byte stride). Oracle: an error, never nil.",
+            "Corpus = C01 blocks (all compositions, incl. enums with a member numbered 0) and C17 messages at three revisions; ~2.2 million (encoding, cut, decoder) cases in the quick tier; a prefix the reference model parses as a complete message is excluded by construction. Values longer than the 1 MiB allocation step (seven block positions, three messages) are cut at a stated subset of positions (both ends, around every 64 KiB step, a 4099-byte stride). Oracle: an error, never nil.",
             "Trusted: refcol / refwire for the exclusion of prefixes that are complete messages."),
     "C11": ("model_checking", "DESIGN.md §4 C11, §2 E1",
             "stateless model checking of the real chpool + puddle + ch.Dial under the controlled scheduler: preemption-bounded DFS over all interleavings of the pool-level steps of 2-3 holder threads, an optional closer thread and the health-check goroutine driven by the fake clock",
-            "Holder programs (ok / exception / transport error / cancelled / repeated Release / Pool.Do / Pool.Ping / two queries) in pairs and triples with MaxConns 1 and 2, with and without a concurrent Pool.Close, and health-check scenarios with short idle time and lifetime. Invariants on every execution: one holder per connection (reconstructed from the query ids each simulated connection saw), broken connections never reissued nor written to, open connections <= MaxConns at every dial, repeated Release harmless, every dialled connection closed after Close, idle connections destroyed by the health check. Quick: bound 1 on 18 scenarios; thorough: bound 2 on ~90.",
+            "Holder programs (ok / exception / transport error / cancelled / repeated Release / Pool.Do / Pool.Ping / two queries; connections whose Close reports an error) in pairs and triples with MaxConns 1 and 2, with and without a concurrent Pool.Close, and health-check scenarios with short idle time and lifetime. Invariants on every execution: one holder per connection (reconstructed from the query ids each simulated connection saw), broken connections never reissued nor written to, open connections <= MaxConns at every dial, repeated Release harmless, every dialled connection closed after Close, idle connections destroyed by the health check. A sweep over 1..130 acquire / release cycles of one connection with a stale repeated Release after each (default schedule) covers every internal handle-slab size. Quick: bound 1 on the scenario list; thorough: bound 2 on ~90.",
             "Trusted: puddle v2.2.2 and x/sync semaphore are instrumented at function granularity (their internal mutex operations are scheduling points, their internal data races are not C12's subject); what a holder does on its own connection is a quiet region whose privacy the connection log would contradict."),
     "C14": ("model_checking", "DESIGN.md §4 C14",
             "explicit-state enumeration of all operation sequences of the vectored writer up to a depth against a pending-bytes reference model, with full private-state fingerprints",
-            "All 12^6 (thorough 12^7) sequences over {ChainBuffer 0/1/3/70 bytes, ChainWrite 0/1/5 bytes, Flush to an accepting / failing-after-0,1,4 / short-writing writer} x initial capacity {0, 64}, every byte position-unique: each Flush must deliver exactly the pending bytes (a prefix on failure) and nothing twice. Path equivalence WriteBlock = EncodeBlock is checked for every C01 case.",
+            "All 13^6 (thorough 13^7) sequences over {ChainBuffer 0/1/3/70 bytes or exactly the free capacity, ChainWrite 0/1/5 bytes, Flush to an accepting / failing-after-0,1,4 / short-writing writer} x initial capacity {0, 64, 1024, 4096}, every byte position-unique: each Flush must deliver exactly the pending bytes (a prefix on failure) and nothing twice. Path equivalence WriteBlock = EncodeBlock is checked for every C01 case.",
             "Trusted: none beyond the Go runtime."),
     "C15": ("exploration", "DESIGN.md §4 C15, §2 E5",
             "differential execution of one exhaustive enumeration in two builds (default and -tags purego) with line-by-line transcript comparison",
-            "35 two-variant codecs x {all 256 / 65536 values for 1- and 2-byte elements, boundary patterns otherwise} x {fresh, reset-after-use} target x decode (whole input and every truncation) x encode into buffers pre-filled with 0..9 bytes x WriteColumn+Flush; each build also checks encode(decode(x)) = x itself.",
+            "35 two-variant codecs x {all 256 / 65536 values for 1- and 2-byte elements, boundary patterns otherwise} x {fresh, reset-after-use} target x decode (whole input and every truncation) x 65535 / 65536 / 65537 rows and > 1 MiB of data per codec x the column read twice from one reader (plain and inside LZ4 / None / split ZSTD frames) x encode into buffers pre-filled with 0..9 bytes x WriteColumn+Flush (after buffered bytes; twice on a writer created over a non-empty buffer); each build also checks encode(decode(x)) = x itself.",
             "Trusted: the driver's transcript comparison. Bool is fed only bytes both builds accept (0 / 1)."),
     "C16": ("model_checking", "DESIGN.md §4 C16",
             "explicit-state breadth-first search over operation histories on the real column objects, deduplicated by a fingerprint of every (also unexported) field, against a list-of-values reference model",
-            "21 compositions (thorough: all of depth <= 1) x histories to depth 5 (6) over {Append x3, Reset, EncodeBlock, WriteBlock+Flush, DecodeBlock of 0/2/3 rows with another dictionary, truncated DecodeBlock + Reset, Prepare, Infer}: after every history Rows/Row equal the model, a fresh encode decoded by the reference codec equals the model, and encoding twice is stable.",
+            "21 compositions (thorough: all of depth <= 1) x histories to depth 5 (6) over {Append x3, Reset, EncodeBlock, WriteBlock+Flush, DecodeBlock of 0/2/3 rows with another dictionary, DecodeBlock of a sibling precision compared with a fresh column, truncated DecodeBlock + Reset, Prepare, Infer, re-Infer of another enum definition}; plus histories with values beyond the 1 MiB allocation step: after every history Rows/Row equal the model, a fresh encode decoded by the reference codec equals the model, and encoding twice is stable.",
             "Trusted: refcol; the successor of a state is built by replaying its path on a fresh object."),
     "C17": ("exploration", "DESIGN.md §4 C17",
             "bounded-exhaustive enumeration of message field vectors x revisions, byte-for-byte comparison with the independent reference encoder and decode-back comparison",
@@ -79,11 +79,11 @@ CLAIMED = {
             "Trusted: refwire (thresholds from ProtocolDefines.h)."),
     "C18": ("exploration", "DESIGN.md §4 C18",
             "bounded-exhaustive enumeration of (block schema, target list, row count) and of block pairs, with a reference compatibility predicate as oracle",
-            "Schemas of 0..2 (3) columns over 20 kinds x 2 row counts x ~60 target variants (permutations, renames, blank names, missing / extra, every kind swap, Auto, none) and block pairs against the same targets: accept / reject must match the predicate, accepted targets — read back as values of the block's type — hold exactly their column and report the block's precision / enum definition as adopted, rejected decodes leave no foreign data.",
+            "Schemas of 0..2 (3) columns over 24 kinds x 2 row counts x ~60 target variants (permutations, renames, blank names, missing / extra, every kind swap, Auto, none), block pairs against the same typed or inferred targets, and block triples (a changed block offered twice; the first schema again) against explicit ColAuto targets: accept / reject must match the predicate, accepted targets — read back as values of the block's type — hold exactly their column and report the block's precision / enum definition as adopted, rejected decodes leave no foreign data.",
             "Trusted: the predicate (same base; enum <-> integer; enums and timestamps adopt the server's parameters; FixedString width must match; wrappers element-wise; a name-based enum target needs an enum block; Auto applies where ColAuto.Infer accepts)."),
     "C19": ("exploration", "DESIGN.md §4 C19",
             "bounded-exhaustive enumeration of type strings (well-formed grammar to depth 2/3 with legal and illegal parameters; all token strings up to length 5/6 over a 25-token alphabet; every single edit of the well-formed types; all character strings up to length 5/6 over a 9-character alphabet as parameter lists of every parameterised family; depth-10000 nesting) and of all ordered pairs for the compatibility relation",
-            "Infer must not panic; when it accepts, the inferred type must not conflict with the request and a block written by the reference codec must decode to the written values; Conflicts must be reflexive and symmetric on all ~10^7 ordered pairs and agree with the documented equivalences.",
+            "Infer must not panic; when it accepts (on a fresh ColAuto, and on one with a history Infer(A), [refused Infer(X)], Infer(B) over a 30-type set), the inferred type must not conflict with the request and a block written by the reference codec must decode to the written values; Conflicts must be reflexive and symmetric on all ~10^7 ordered pairs and agree with the documented equivalences.",
             "Trusted: refcol for the soundness decode (types it does not know are checked for totality only)."),
 }
 
